@@ -214,7 +214,10 @@ def evaluate(spec, case, impl_entry, model_entry):
             break
     if pinned and not ctx.monitor:
         ctx.disagree = (0, "<reference oracle %s>" % pinned[0], pinned[1][:300])
-    if model_entry is None:
+    applies = spec.get("model_applies")
+    if applies is not None and not applies(case):
+        pass        # a case finer than the model's step granularity: only the monitors decide it
+    elif model_entry is None:
         ctx.disagree = (0, "<model produced no output>", ilines[0] if ilines else "")
     else:
         mlines, _ = model_entry
